@@ -163,6 +163,8 @@ def parse_vspec(path):
             cur_fn["r4"] = True
         elif head == "r12":
             cur_fn["r12"] = True
+        elif head == "r24":
+            cur_fn["r24"] = True
         elif head == "r15":
             cur_fn.setdefault("r15", []).append(rest)
         elif head == "r17":
@@ -459,11 +461,37 @@ class UnitGen:
                     s0, e0 = n["range"]
                     ms, me = n["map"]
                     ks, ke = n["key"]
-                    edits.append((s0, ms, "vx_entry_or_default(&mut *", "R12"))
+                    # a field place (`self.m`) is borrowed directly, a `&mut` binding is reborrowed (a wrong guess does not type-check)
+                    edits.append((s0, ms, "vx_entry_or_default(&mut " + ("" if "." in src.text(ms, me) else "*"), "R12"))
                     edits.append((me, ks, ", ", "R12"))
                     edits.append((ke, e0, ")", "R12"))
                     self.rewrites.append({"rule": "R12", "what": f"`{src.text(ms, me)}.entry(k).or_default()` -> vx_entry_or_default(&mut map, k) in {qual}",
                                           "file": src.rel, "line": src.line_of(s0)})
+        # R24: `if let Entry::Occupied(mut X) = M.entry(K) { ..X.get_mut()..X.get()..X.remove().. } [else ..]` with M and K plain
+        # identifiers (M a `&mut HashMap` binding, K a Copy key) -> `if M.contains_key(&K) { ..vx_occupied_get_mut(&mut *M, &K)..
+        # vx_occupied_get(&*M, &K)..vx_occupied_remove(&mut *M, &K).. }`: the definition of `Entry::Occupied` (the key is present)
+        # and of OccupiedEntry::{get_mut, get, remove} (the value stored under that key / take it out). Avoids vstd's Entry specs,
+        # whose get_mut/get/remove sequence is inconsistent. Refused when the entry variable is used in any other way.
+        if fs.get("r24"):
+            k24 = 0
+            for n in nodes:
+                if n["kind"] != "occupied_entry" or n["in_closure"]:
+                    continue
+                if n["other_uses"]:
+                    raise Undecided(f"fn {qual}: R24 refused (entry variable `{n['var']}` used other than by get_mut()/get()/remove())")
+                M, K = n["map"], n["key"]
+                cs, ce = n["cond"]
+                edits.append((cs, ce, f"{M}.contains_key(&{K})", "R24"))
+                for c in n["calls"]:
+                    rep = {"get_mut": f"vx_occupied_get_mut(&mut *{M}, &{K})", "get": f"vx_occupied_get(&*{M}, &{K})",
+                           "remove": f"vx_occupied_remove(&mut *{M}, &{K})"}[c["method"]]
+                    edits.append((c["range"][0], c["range"][1], rep, "R24"))
+                k24 += 1
+                self.rewrites.append({"rule": "R24", "what": f"`if let Entry::Occupied(mut {n['var']}) = {M}.entry({K})` -> `if {M}.contains_key(&{K})`, "
+                                      f"{len(n['calls'])} use(s) of the entry -> vx_occupied_*(&mut *{M}, &{K}) in {qual}",
+                                      "file": src.rel, "line": src.line_of(cs)})
+            if k24 == 0:
+                raise Undecided(f"fn {qual}: R24 requested but no `if let Entry::Occupied(mut x) = m.entry(k)` found (lost anchor)")
         # R18: `match E { P if G => A, _ => B }` (exactly these two arms) -> `if let P = E { if G { A } else { B } } else { B }`
         # (the installed Verus refuses a match arm that has both a guard and a by-mutable-reference binding). The guard is
         # evaluated exactly once on the path where P matches, as in the original; B is duplicated textually.
